@@ -622,7 +622,100 @@ func (tt *TermTable) FPCmp(op string, a, b *Term) *Term {
 			return tt.Bool(x >= y)
 		}
 	}
+	if r := tt.fpCmpIntConst(op, a, b); r != nil {
+		return r
+	}
 	return tt.intern(&Term{Op: op, S: SBool, Args: []*Term{a, b}})
+}
+
+// fpCmpIntConst rewrites a comparison between float64(int x) and a float
+// constant into an exact integer comparison: RNE conversion is monotone, so
+// {x : conv(x) < c} is an initial segment whose end is found by binary search
+// with the host's (IEEE, RNE) conversion.
+func (tt *TermTable) fpCmpIntConst(op string, a, b *Term) *Term {
+	swap := map[string]string{"fp.lt": "fp.gt", "fp.gt": "fp.lt", "fp.leq": "fp.geq", "fp.geq": "fp.leq", "fp.eq": "fp.eq"}
+	if a.IsConst() && !b.IsConst() {
+		a, b = b, a
+		op = swap[op]
+	}
+	if !b.IsConst() || b.S != SF64 || a.S != SF64 {
+		return nil
+	}
+	if a.Op != "fp.from_sbv" && a.Op != "fp.from_ubv" {
+		return nil
+	}
+	x := a.Args[0]
+	w := x.S.Width()
+	if w > 64 {
+		return nil
+	}
+	c := b.F64()
+	if c != c {
+		return tt.Bool(false)
+	}
+	signed := a.Op == "fp.from_sbv"
+	// domain as big ints: [lo, hi]
+	var lo, hi *big.Int
+	if signed {
+		lo = new(big.Int).Neg(new(big.Int).Lsh(big.NewInt(1), uint(w-1)))
+		hi = new(big.Int).Sub(new(big.Int).Lsh(big.NewInt(1), uint(w-1)), big.NewInt(1))
+	} else {
+		lo = big.NewInt(0)
+		hi = new(big.Int).Sub(new(big.Int).Lsh(big.NewInt(1), uint(w)), big.NewInt(1))
+	}
+	conv := func(v *big.Int) float64 {
+		if signed {
+			return float64(v.Int64())
+		}
+		return float64(v.Uint64())
+	}
+	// threshold: least v in [lo,hi] with pred(conv(v)); hi+1 if none
+	thr := func(pred func(float64) bool) *big.Int {
+		l, h := new(big.Int).Set(lo), new(big.Int).Add(hi, big.NewInt(1))
+		for l.Cmp(h) < 0 {
+			m := new(big.Int).Add(l, h)
+			m.Rsh(m, 1) // floor for non-negative sums; adjust for negatives
+			if new(big.Int).Add(l, h).Sign() < 0 && new(big.Int).Add(l, h).Bit(0) == 1 {
+				// Rsh on negative big.Int rounds toward -inf already
+			}
+			if pred(conv(m)) {
+				h = m
+			} else {
+				l = new(big.Int).Add(m, big.NewInt(1))
+			}
+		}
+		return l
+	}
+	tge := thr(func(f float64) bool { return f >= c })
+	tgt := thr(func(f float64) bool { return f > c })
+	top := new(big.Int).Add(hi, big.NewInt(1))
+	// x < T
+	less := func(T *big.Int) *Term {
+		if T.Cmp(top) >= 0 {
+			return tt.Bool(true)
+		}
+		if T.Cmp(lo) <= 0 {
+			return tt.Bool(false)
+		}
+		k := tt.BigConst(w, T)
+		if signed {
+			return tt.BVCmp("bvslt", x, k)
+		}
+		return tt.BVCmp("bvult", x, k)
+	}
+	switch op {
+	case "fp.lt":
+		return less(tge)
+	case "fp.leq":
+		return less(tgt)
+	case "fp.geq":
+		return tt.Not(less(tge))
+	case "fp.gt":
+		return tt.Not(less(tgt))
+	case "fp.eq":
+		return tt.And(tt.Not(less(tge)), less(tgt))
+	}
+	return nil
 }
 
 func (tt *TermTable) FPIsNaN(a *Term) *Term {
